@@ -47,6 +47,8 @@ type Property struct {
 	Describe func(c any) any
 	// CaseTimeoutS is the per-case watchdog in seconds (default 60).
 	CaseTimeoutS int
+	// SoloTimeoutS is the watchdog of the solitary re-run that confirms a suspected hang (default 600).
+	SoloTimeoutS int
 	Assumptions  []string
 	// Custom replaces the generic driver completely (C20).
 	Custom func(d *Driver) int
